@@ -98,6 +98,10 @@ def run(ctx):
         fa = proto.FnAnalysis(c, body, proto.Spec("driver"), None)
         if any(ev["kind"] == "send" for ev in fa.events.values()):
             driver_rule(ctx, c, body, R_DRV)
+    R_LIN = ctx.rule("C14.linear", "the item parameter of start_send and buffered items taken out of the adaptor's state are moved onward on every path", floor=16)
+    from p_C11 import linear_rule
+    from p_C12 import item_groups
+    linear_rule(ctx, c, R_LIN, item_groups(c, impls), "C14")
     R_ERR = ctx.rule("C14.err", "no Result of an inner sink operation is discarded", floor=10)
     bodies = []
     for imp, r in res:
